@@ -176,6 +176,18 @@ def check_string(env, s, rec, deep, with_sql):
             rec.violation("nameserver-roundtrip-differs", "%s name server returned %r for %r" % (label, fields(got), fields(u)), ("s", s))
             return u
         rec.count("ns_roundtrips")
+        # the other way to register: the accepted STRING itself (what nsc and scripts pass), not a URI object
+        try:
+            ns.register(name + ".s", s)
+            got = ns.lookup(name + ".s")
+            listed = ns.list(prefix=name + ".s").get(name + ".s")
+        except Exception as x:
+            rec.violation("nameserver-roundtrip-raises", "%s name server register/lookup of the string %r raised %r" % (label, s, x), ("s", s))
+            return u
+        if norm(got) != norm(u) or norm(env.URI(listed)) != norm(u):
+            rec.violation("nameserver-roundtrip-differs:registered-as-string", "%s name server: the string %r (= %r) was registered; lookup gives %r, list gives %r" % (label, s, fields(u), fields(got), listed), ("s", s))
+            return u
+        rec.count("ns_string_roundtrips")
     return u
 
 
